@@ -37,7 +37,7 @@ REQUIRED_THEOREMS = [
     # gap round (Props/C20Coll.lean)
     "from_collection_world", "from_collection_read", "gatherAll_spec", "bisect_local",
     "extract_time_range_any_times", "extract_time_range_any_times_world", "from_collection_succeeds",
-    "world_slice_returns_appended", "world_view_read_returns_appended",
+    "world_slice_returns_appended", "world_view_read_returns_appended", "view_items_world",
 ]
 # gap round: `from_collection` end to end (world level), `extract_time_range` boundaries on unsorted times
 EXTRA_PROP_FILES = ["C20Coll"]
